@@ -1,6 +1,6 @@
 (* C06 property theorems. Statements closed by `exact lemma`, followed by Print Assumptions. *)
 From Coq Require Import ZArith NArith List Bool String Lia.
-From OG Require Import C06.Model C06.ModelStream C06.Proofs C06.ProofsInt C06.ProofsDec C06.ProofsRender C06.ProofsStream.
+From OG Require Import C06.Model C06.ModelStream C06.Proofs C06.ProofsInt C06.ProofsDec C06.ProofsRender C06.ProofsStream C06.ProofsFloat.
 Import ListNotations.
 Open Scope Z_scope.
 
@@ -244,6 +244,34 @@ Theorem C06_float_stored_correctly_rounded : forall dec2f,
   parse_value dec2f cfg_repaired lit = Ok (VFloat lit (dec2f_exact lit)).
 Proof. exact float_stored_correctly_rounded. Qed.
 Print Assumptions C06_float_stored_correctly_rounded.
+
+(* the reference conversion itself: dec2f_exact hands the literal's value, as a ratio of integers, to round_ratio; for every
+   positive ratio round_ratio finds the binade (2^e <= num/den < 2^(e+1), written by cross-multiplication with An/Bd) and
+   returns num/den rounded to the nearest multiple q * 2^sh of the spacing 2^sh = 2^max(e-52,-1074) binary64 has there,
+   ties to the even q, normalised (2^52 <= q unless subnormal; q = 2^53 moves to the next binade), infinite beyond the
+   largest exponent - i.e. the correctly rounded binary64.  (dec2f_exact decides literals beyond 10^330 / below 10^-360
+   without this function; those shortcuts are only compared with strconv.ParseFloat by the harness.) *)
+Theorem C06_dec2f_round_ratio_correct : forall neg num den, 0 < num -> 0 < den ->
+  exists e q,
+    let sh := Z.max (e - 52) (-1074) in
+    (Bd den e <= An num e /\ An num (e + 1) < Bd den (e + 1)) /\
+    nearest_even (An num sh) (Bd den sh) q /\
+    0 <= q <= 2 ^ 53 /\ (-1074 <= e - 52 -> 2 ^ 52 <= q) /\
+    round_ratio neg num den =
+      (if q =? 2 ^ 53 then (if 971 <? sh + 1 then FInf neg else FFin neg (2 ^ 52) (sh + 1))
+       else if 971 <? sh then FInf neg else FFin neg q sh).
+Proof. exact round_ratio_correct. Qed.
+Print Assumptions C06_dec2f_round_ratio_correct.
+
+Example C06_example_round_ratio :
+  round_ratio false 1 10 = FFin false 7205759403792794 (-56) /\                 (* 0.1 = 0x1.999999999999ap-4 *)
+  dec2f_exact (bs "0.1") = FFin false 7205759403792794 (-56) /\
+  dec2f_exact (bs "9007199254740993") = FFin false 4503599627370496 1 /\      (* 2^53 + 1: a tie, to even *)
+  dec2f_exact (bs "4.9e-324") = FFin false 1 (-1074) /\
+  dec2f_exact (bs "2.4703282292062327e-324") = FFin false 0 (-1074) /\        (* just below half the smallest subnormal *)
+  dec2f_exact (bs "2.4703282292062328e-324") = FFin false 1 (-1074) /\
+  dec2f_exact (bs "1.7976931348623159e308") = FInf false.
+Proof. vm_compute. repeat split. Qed.
 
 (* the hypothesis is satisfiable (by the exact conversion itself), and the decimal premises hold on the boundary values *)
 Example C06_dec2f_hypothesis_satisfiable : forall s, valid_number s = true -> dec2f_exact s = dec2f_exact s.
